@@ -27,6 +27,8 @@ def match(kf, prop, line, k, detail):
             continue
         if 'header_contains' in m and not all(h in header for h in m['header_contains']):
             continue
+        if 'id_prefix' in m and not header[0].startswith(m['id_prefix']):
+            continue
         if 'grammar_regex' in m and not re.search(m['grammar_regex'], ' '.join(grammar)):
             continue
         if 'detail_regex' in m and not re.search(m['detail_regex'], detail or ''):
